@@ -263,6 +263,47 @@ class Sequences(SubCheck):
                 "            q = Path(p.d(relative=r, smooth=s))\n            assert len(q) == len(p)\n" % case["d"])
 
 
+def handle_strings():
+    """curve after curve with every coincidence of a handle with a node or with the previous handle: the smooth-shorthand
+    eligibility rules compare exactly these points, so each equality class is enumerated (not only generic positions)"""
+    prevs = [("", None), ("L 40,0", None), ("C 10,20 30,20 40,0", (30.0, 20.0)), ("C 10,20 40,0 40,0", (40.0, 0.0)),
+             ("C 0,0 30,20 40,0", (30.0, 20.0)), ("Q 20,30 40,0", (20.0, 30.0)), ("Q 40,0 40,0", (40.0, 0.0)),
+             ("Q 0,0 40,0", (0.0, 0.0))]
+    S, E = (40.0, 0.0), (80.0, 0.0)
+    thirds = ["", "S 100,20 120,0", "T 120,0", "s 20,20 40,0", "t 40,0", "C 80,0 100,-20 120,0", "Q 80,0 120,0"]
+    f = lambda p: "%r,%r" % (p[0], p[1])
+    out = []
+    for ptxt, pc_ in prevs:
+        head = ("M 0,0 " + ptxt) if ptxt else "M 40,0"
+        refl = None if pc_ is None else (2 * S[0] - pc_[0], 2 * S[1] - pc_[1])
+        c1s = [(50.0, -25.0), S] + ([refl, pc_] if pc_ is not None else [])
+        for c1 in c1s:
+            for c2 in [(60.0, -30.0), E, S]:
+                for th in thirds:
+                    out.append("%s C %s %s %s %s" % (head, f(c1), f(c2), f(E), th))
+        for c in [(60.0, -30.0), S, E] + ([refl, pc_] if pc_ is not None else []):
+            for th in thirds:
+                out.append("%s Q %s %s %s" % (head, f(c), f(E), th))
+    seen = set()
+    return [x.strip() for x in out if not (x in seen or seen.add(x))]
+
+
+class Handles(Sequences):
+    name = "handles"
+
+    def __init__(self, svg, tier, seed):
+        self.svg = svg
+        self.strings = handle_strings()
+        self.builds = ["parsed", "rebuilt", "mapped"]
+        self.bounds = dict(strings=len(self.strings), builds=self.builds, relative=3, smooth=3)
+
+    def size(self):
+        return len(self.strings)
+
+    def case(self, i):
+        return {"d": self.strings[i]}
+
+
 ARC_SPECIALS = [
     # (rx, ry, rot, fa, fs, dx, dy)  relative to the start
     ("scaled-up", 1.0, 2.0, 40.0, 0, 1, 9.0, 5.0), ("half-exact", 5.0, 5.0, 0.0, 0, 1, 10.0, 0.0),
@@ -379,7 +420,7 @@ class Precision(SubCheck):
 
 
 def build(tier, seed, svg):
-    return [Sequences(svg, tier, seed), Arcs(svg, tier), Precision(svg, tier)]
+    return [Sequences(svg, tier, seed), Handles(svg, tier, seed), Arcs(svg, tier), Precision(svg, tier)]
 
 
 def m_subpath_fragment(d):
